@@ -7,7 +7,12 @@
 //!     the registers the syscall ABI preserves.
 //! (d) single instant: busy counter threads under the StopProcess fail point (so that only the
 //!     ptrace stop freezes them): register, stack slot and app-memory word must agree within one step.
-//! (c) and the exit-subset schedules need the libc-interposition explorer (c04env.rs).
+//! (c) single instant, trace form: on the intercepted libc trace every listed thread's attach precedes
+//!     its wait precedes all its register reads, and every read of target memory lies after the last
+//!     wait and before the first detach.
+//! (e) every subset of 4 spin threads exits between enumeration and attach (placement callback at the
+//!     attach of the 2nd / 4th thread, StopProcess fail point on): exited threads are listed with a valid
+//!     context or omitted and reported; survivors are listed once with their own state.
 
 use crate::dump::{dump_mem, DumpOpts, DumpResult};
 use crate::puppet::*;
@@ -16,6 +21,7 @@ use crate::Ctx;
 use mdv_core::mdparse::{ctx as off, Dump, ST_MOZ_SOFT_ERRORS};
 use mdv_core::{json, Report, Value};
 
+thread_local! { static T0: std::time::Instant = std::time::Instant::now(); }
 const GPR_VALUES: [u64; 6] = [0, 1, u64::MAX, 1 << 63, 0x0000_0000_ffff_ffff, 0xffff_ffff_0000_0000];
 const RSP_VALUES: [u64; 5] = [0x10, 1 << 63, 0xffff_ffff_0000_0000, 0x7fff_ffff_f000, 0x0000_7000_0000_0008];
 const MXCSR_VALUES: [u32; 5] = [0x1f80 | 0x8000, 0x1f80 | 0x6000, 0x1fbf, 0x0000, 0x1f80 | 0x0040];
@@ -232,6 +238,7 @@ fn run_regfiles(files: &[RegFile], null_sp_threads: usize) -> (Value, Vec<(Strin
 /// (d) single-instant check with busy counter threads.
 fn run_count(n_count: usize, stop_failpoint: bool) -> (Value, Vec<(String, String)>) {
     let mut p = Puppet::spawn();
+    p.unpin();
     let mut ts = Vec::new();
     for _ in 0..n_count {
         ts.push(p.add_thread(Kind::Count));
@@ -290,11 +297,164 @@ fn run_count(n_count: usize, stop_failpoint: bool) -> (Value, Vec<(String, Strin
     (case, fails)
 }
 
+/// (c) syscall-order monitor on the intercepted libc trace of one dump.
+fn run_order(n: usize, opt: usize) -> (Value, Vec<(String, String)>, usize) {
+    use crate::envrun::{env_dump, EnvSpec};
+    let mut p = Puppet::spawn();
+    for i in 1..n {
+        p.add_thread(if i % 2 == 0 { Kind::Spin } else { Kind::Block });
+    }
+    let region = p.pattern(2, "hole", "rw");
+    p.quiesce();
+    let mut o = DumpOpts::default();
+    match opt {
+        1 => o.app_memory.push((region as usize, 4096)),
+        2 => {
+            o.sanitize = true;
+            o.size_limit = Some(1);
+        }
+        _ => {}
+    }
+    let case = json!({"order_monitor": {"n": n, "opt": opt}});
+    let out = env_dump(&p, &EnvSpec { opts: o, ..Default::default() }, std::collections::HashMap::new(), None);
+    let mut fails = Vec::new();
+    if !matches!(out.result, DumpResult::Ok(_)) {
+        fails.push(("dump-failed".into(), format!("{:?}", out.result)));
+        return (case, fails, 0);
+    }
+    let idx = |pred: &dyn Fn(&str) -> bool| -> Vec<usize> { out.trace.iter().enumerate().filter(|(_, c)| pred(&c.key)).map(|(i, _)| i).collect() };
+    let waits = idx(&|k| k.starts_with("wait:"));
+    let detaches = idx(&|k| k.starts_with("detach:"));
+    let memreads = idx(&|k| k.starts_with("vmread#") || k.starts_with("pread#") || k.starts_with("peek#"));
+    let last_wait = waits.iter().max().copied().unwrap_or(0);
+    let first_detach = detaches.iter().min().copied().unwrap_or(usize::MAX);
+    for t in 0..n {
+        let a = idx(&|k| k == format!("attach:t{t}"));
+        let w = idx(&|k| k.starts_with(&format!("wait:t{t}#")));
+        let r = idx(&|k| k.starts_with(&format!("regs:t{t}#")));
+        if a.len() != 1 {
+            fails.push(("order/attach-count".into(), format!("thread t{t} attached {} times", a.len())));
+            continue;
+        }
+        if w.is_empty() || w[0] < a[0] {
+            fails.push(("order/wait-before-attach".into(), format!("thread t{t}: no wait after its attach")));
+        }
+        if let Some(first_reg) = r.first() {
+            if w.first().map(|w0| first_reg < w0).unwrap_or(true) {
+                fails.push(("order/registers-before-stop".into(), format!("thread t{t}: registers read (call {first_reg}) before the thread was seen stopped")));
+            }
+        }
+        if r.iter().any(|i| *i > first_detach) {
+            fails.push(("order/registers-after-detach".into(), format!("thread t{t}: registers read after the first detach")));
+        }
+    }
+    for m in &memreads {
+        if *m < last_wait {
+            fails.push(("order/memory-read-before-all-threads-stopped".into(), format!("target memory read (call {m}: {}) before the last thread was seen stopped (call {last_wait})", out.trace[*m].key)));
+            break;
+        }
+        if *m > first_detach {
+            fails.push(("order/memory-read-after-resume".into(), format!("target memory read (call {m}: {}) after the first detach (call {first_detach})", out.trace[*m].key)));
+            break;
+        }
+    }
+    (case, fails, memreads.len())
+}
+
+/// (e) every subset of threads exits between enumeration and attach (StopProcess fail point on, so
+/// that the threads can run at all).
+fn run_exits(subset: u32, at: usize) -> (Value, Vec<(String, String)>) {
+    use crate::envrun::{env_dump, EnvSpec};
+    let nspin = 4usize;
+    let mut p = Puppet::spawn();
+    p.unpin();
+    for _ in 0..nspin {
+        p.add_thread(Kind::Spin);
+    }
+    p.quiesce();
+    let case = json!({"exit_subset": subset, "placement": at});
+    let pid = p.pid;
+    // a victim whose thread index is below the placement is already attached (ptrace-stopped): it
+    // cannot run, so its release takes effect only after the dump; it must then simply be listed
+    let victims: Vec<(u64, i32)> = (0..nspin).filter(|i| subset & (1 << i) != 0 && i + 1 >= at).map(|i| (p.threads[i].page + OFF_RELEASE, p.threads[i].tid)).collect();
+    let victims2 = victims.clone();
+    let mem = std::fs::OpenOptions::new().write(true).open(format!("/proc/{pid}/mem")).expect("mem");
+    let cb: crate::env::Callback = Box::new(move |_k| {
+        use std::os::unix::fs::FileExt;
+        for (addr, _) in &victims2 {
+            let _ = mem.write_all_at(&1u64.to_le_bytes(), *addr);
+        }
+        // wait until they are gone
+        let dl = std::time::Instant::now() + std::time::Duration::from_secs(5);
+        for (_, tid) in &victims2 {
+            while std::path::Path::new(&format!("/proc/{pid}/task/{tid}")).exists() && std::time::Instant::now() < dl {
+                std::thread::sleep(std::time::Duration::from_micros(200));
+            }
+        }
+    });
+    let mut before: std::collections::HashMap<String, crate::env::Callback> = std::collections::HashMap::new();
+    before.insert(format!("attach:t{at}"), cb);
+    let out = env_dump(&p, &EnvSpec { failpoints: 1, ..Default::default() }, before, None);
+    let mut fails = Vec::new();
+    let bytes = match &out.result {
+        DumpResult::Ok(b) => b.clone(),
+        other => {
+            fails.push(("exits/dump-failed".into(), format!("{other:?}")));
+            return (case, fails);
+        }
+    };
+    let d = Dump::parse(&bytes);
+    let soft = d.raw_bytes(&bytes, ST_MOZ_SOFT_ERRORS).map(|b| String::from_utf8_lossy(b).into_owned()).unwrap_or_default();
+    let gone: Vec<i32> = victims.iter().map(|v| v.1).collect();
+    for i in 0..nspin {
+        let tid = p.threads[i].tid;
+        let n = d.threads.iter().filter(|t| t.tid == tid as u32).count();
+        if gone.contains(&tid) {
+            // position in the enumeration order relative to the placement decides whether it was attached before it exited
+            if n > 1 {
+                fails.push(("exits/duplicated".into(), format!("exited thread {tid} listed {n} times")));
+            }
+            if n == 0 && !soft.contains(&tid.to_string()) {
+                fails.push(("exits/omitted-without-report".into(), format!("thread {tid} exited before it could be attached and is neither listed nor reported")));
+            }
+            if n == 1 {
+                let t = d.threads.iter().find(|t| t.tid == tid as u32).unwrap();
+                if t.context.size as usize != off::SIZE {
+                    fails.push(("exits/listed-without-context".into(), format!("exited thread {tid} is listed without a valid context")));
+                }
+            }
+        } else if n != 1 {
+            fails.push(("exits/survivor-not-listed-once".into(), format!("thread {tid} stayed alive but is listed {n} times")));
+        } else {
+            // a survivor must carry its own registers (not those of an exited neighbour)
+            let t = d.threads.iter().find(|t| t.tid == tid as u32).unwrap();
+            if let Some(cb) = d.loc_bytes(&bytes, &t.context) {
+                let rip = off::u64_at(cb, off::RIP);
+                let page = p.threads[i].page;
+                if !(rip >= page && rip < page + 4096) {
+                    fails.push(("exits/survivor-has-foreign-state".into(), format!("thread {tid}: rip {rip:#x} is not in its own code page {page:#x}")));
+                }
+            }
+        }
+    }
+    (case, fails)
+}
+
 pub fn run(ctx: &Ctx, rep: &mut Report) {
-    rep.rule = "(a) thread counts {1,2,3,8,21,64}(quick)/1..64 selection x spin/block mixes x 0..2 null-stack-pointer threads; (b) one thread per register file: base + every single deviation over 34 register dimensions (16 GPR, 16 XMM, mxcsr, x87 cw) x boundary values for spin threads, preserved registers for block threads; (d) 1..3 busy counter threads with and without the StopProcess fail point. nontrivial = register files with a deviation + completeness shapes with skipped threads + counter runs".into();
+    rep.rule = "(a) thread counts {1,2,3,8,21,64}(quick)/1..64 selection x spin/block mixes x 0..2 null-stack-pointer threads; (b) one thread per register file: base + every single deviation over 34 register dimensions (16 GPR, 16 XMM, mxcsr, x87 cw) x boundary values for spin threads, preserved registers for block threads; (d) 1..3 busy counter threads with and without the StopProcess fail point; (c) syscall-order monitor on 9 traced dumps; (e) all 16 exit subsets of 4 spin threads at 2 placements. nontrivial = register files with a deviation + completeness shapes with skipped threads + counter runs".into();
     rep.assume("a ptrace-stopped thread does not execute (kernel guarantee); cs/ss/ds/es/fs/gs selectors of a 64-bit Linux user thread are 0x33/0x2b/0/0/0/0");
     if let Some(case) = &ctx.replay {
-        if case.get("count_threads").is_some() {
+        if let Some(o) = case.get("order_monitor") {
+            let (c, fails, _) = run_order(o["n"].as_u64().unwrap_or(3) as usize, o["opt"].as_u64().unwrap_or(0) as usize);
+            for (k, m) in fails {
+                rep.violation(&k, &m, c.clone());
+            }
+        } else if case.get("exit_subset").is_some() {
+            let (c, fails) = run_exits(case["exit_subset"].as_u64().unwrap_or(0) as u32, case["placement"].as_u64().unwrap_or(1) as usize);
+            for (k, m) in fails {
+                rep.violation(&k, &m, c.clone());
+            }
+        } else if case.get("count_threads").is_some() {
             let (c, fails) = run_count(case["count_threads"].as_u64().unwrap_or(1) as usize, case["stop_failpoint"].as_bool().unwrap_or(false));
             for (k, m) in fails {
                 rep.violation(&k, &m, c.clone());
@@ -319,6 +479,7 @@ pub fn run(ctx: &Ctx, rep: &mut Report) {
         rep.evaluations += 1;
         return;
     }
+    T0.with(|_| ());
     // work items
     let mut items: Vec<(Vec<RegFile>, usize)> = Vec::new();
     // (b) all single deviations for spin threads, ~48 per puppet
@@ -388,6 +549,39 @@ pub fn run(ctx: &Ctx, rep: &mut Report) {
             }
         }
     }
+    eprintln!("[c04] a+b+d done at {:.1}s", T0.with(|t| t.elapsed().as_secs_f64()));
+    // (c) order monitor
+    let mut mem_reads = 0;
+    let order_items: Vec<(usize, usize)> = [1usize, 3, 8].iter().flat_map(|n| (0..3).map(move |o| (*n, o))).collect();
+    for (case, fails, m) in par_map(&order_items, |_, (n, o)| run_order(*n, *o)) {
+        rep.evaluations += 1;
+        mem_reads += m;
+        for (k, msg) in fails {
+            rep.violation(&k, &msg, case.clone());
+        }
+    }
+    rep.set("order_monitor", json!({"dumps": order_items.len(), "target_memory_reads_checked": mem_reads}));
+    eprintln!("[c04] c done at {:.1}s", T0.with(|t| t.elapsed().as_secs_f64()));
+    // (e) exit subsets: sequential (fail point is process-global)
+    let mut exit_runs = 0;
+    for at in [1usize, 3] {
+        for subset in 0u32..16 {
+            if !ctx.tier.is_thorough() && at == 3 && subset.count_ones() > 2 {
+                continue;
+            }
+            let (case, fails) = run_exits(subset, at);
+            rep.evaluations += 1;
+            exit_runs += 1;
+            if subset != 0 {
+                rep.nontrivial += 1;
+            }
+            for (k, msg) in fails {
+                rep.violation(&k, &msg, case.clone());
+            }
+        }
+    }
+    eprintln!("[c04] e done at {:.1}s", T0.with(|t| t.elapsed().as_secs_f64()));
+    rep.set("exit_subset_runs", json!(exit_runs));
     rep.set("thread_contexts_compared", json!(contexts_checked));
     rep.set("register_files_with_one_deviation", json!(devs.len()));
     rep.states = rep.evaluations;
